@@ -270,7 +270,7 @@ Definition with_key (o : IoSub.op) (k : list bytes) : IoSub.op :=
   match o with
   | OPut _ vs => OPut k vs | OPin _ vs => OPin k vs | OAdd _ v => OAdd k v | OGet _ => OGet k
   | OGetFirst _ => OGetFirst k | OGetLast _ => OGetLast k | OPop _ => OPop k | ORem _ => ORem k
-  | ORemVal _ v => ORemVal k v | OCnt _ => OCnt k
+  | ORemVal _ v => ORemVal k v | OCnt _ => OCnt k | ORaise _ e => ORaise k e
   end.
 Definition db_sstep (name : N -> bytes) (set : bool) (d : dbb) (o : IoSub.op) (q : N) : dbb * res rv :=
   step_io set d (with_key o [name q]).
